@@ -14,7 +14,9 @@ Guard(g) == g \notin Weak
 
 \* ---- writer: util/tlv8.go:81-101
 RECURSIVE Frag(_)
-Frag(v) == IF Len(v) = 0 THEN <<>>
+\* an empty value is an item of length 0 (guard empty_value_is_an_item): a tag that was set is on the wire - that is how
+\* HAP separates list entries (separator item of length 0); without the guard setting an empty value adds nothing
+Frag(v) == IF Len(v) = 0 THEN (IF Guard("empty_value_is_an_item") THEN << <<>> >> ELSE <<>>)
            ELSE IF Len(v) <= MaxFrag THEN (IF Len(v) = MaxFrag /\ ~Guard("no_empty_terminator") THEN <<v, <<>> >> ELSE <<v>>)
            ELSE <<SubSeq(v, 1, IF Guard("fragment_size") THEN MaxFrag ELSE MaxFrag + 1)>>
                 \o Frag(SubSeq(v, (IF Guard("fragment_size") THEN MaxFrag ELSE MaxFrag + 1) + 1, Len(v)))
@@ -44,6 +46,7 @@ Get(its, tag) == IF its = <<>> THEN <<>> ELSE (IF Head(its).tag = tag THEN Head(
 
 \* ---- C16
 FragmentSize == \A k \in 1..Len(items) : Len(items[k].val) <= MaxFrag
+EverySetIsAnItem == \A k \in 1..Len(sets) : \E j \in 1..Len(items) : items[j].tag = sets[k].tag
 RoundTrip == LET p == Parse(Ser(items)) IN p.ok /\ \A t \in Tags : Get(p.items, t) = Get(sets, t)
 \* a cut stream parses only at an item boundary, and then yields a prefix of the items
 RECURSIVE Boundaries(_)
